@@ -138,7 +138,9 @@ fn dec_body(c: &DecCase, ch: &Chooser) -> Outcome {
                                 format!("prefix complete after {} bytes but the error came only after {} bytes had been delivered", completing, delivered),
                             );
                         }
-                        if lens[i] >= (1 << 20) && max_alloc >= lens[i] {
+                        // only judged when the payload never arrived (bare prefix): otherwise buffering the
+                        // bytes that were actually delivered legitimately allocates that much
+                        if i >= c.frames.len() && lens[i] >= (1 << 20) && max_alloc >= lens[i] {
                             o.violate("oversize-reserved", format!("an allocation of {max_alloc} bytes was made for a refused message declaring {} bytes", lens[i]));
                         }
                     }
